@@ -181,11 +181,13 @@ CONCRETE_SAMPLES = {'int': [0, 1, -1, 2, 16, 40], 'float': [0.5, -2.5, 3.0], 'bo
                     'text': ['bc'], 'array': [[1, 2]], 'nested': [[[1, 2], [3, 4]]]}
 
 
-def pool_value(env, e, tag, name, arity=1, fn=None, concrete=False):
+def pool_value(env, e, tag, name, arity=1, fn=None, concrete=False, lim=None):
     if concrete and tag in CONCRETE_SAMPLES:
         # partner of a 'special' value: non-finite doubles do not mix with symbolic arithmetic, so the partner is drawn from
         # a few concrete representatives (an enumeration, stated in the bounds)
         vals = CONCRETE_SAMPLES[tag]
+        if arity >= 3:
+            vals = vals[1:3] + vals[-1:]       # fewer partners beside an odd value at arity 3-4: 1, -1 / 2020
         return vals[e.choose(len(vals))]
     if tag == 'int' and fn in SMALL_INT_FUNCS:
         return e.fresh_int(name, -40, 40)
@@ -195,7 +197,7 @@ def pool_value(env, e, tag, name, arity=1, fn=None, concrete=False):
     if tag == 'int':
         # a lone argument ranges wide (loops bounded by argument validation must terminate); with several arguments the
         # integers stay small because they also serve as exponents, radices, widths and digit counts
-        lim = 2 ** 16 if arity <= 1 else 40
+        lim = lim or (2 ** 16 if arity <= 1 else 40)
         return e.fresh_int(name, -lim, lim)
     if tag == 'float':
         # integer-valued doubles symbolically, plus two concrete fractions (text rendering of arbitrary fractions - the
@@ -234,11 +236,12 @@ class Functions(Harness):
     name = 'C01.functions'
     prop = 'C01'
     termination = True
-    doc = 'every registered function at every arity 0..2 (quick) / 0..4 (thorough) over a pool holding a value of every type ' \
+    doc = 'every registered function at every arity 0..4 (quick: arity 3-4 with a reduced pool) over a pool holding a value of every type ' \
           'returns a well-formed record and terminates'
     functions = ('every function in formulas.dispatcher._registry_', 'Parser.parse', 'Parser.call_function', 'error.from_message')
     bounds = 'arguments: special (with concrete partners; 17 concrete odd texts such as inf, nan, 1e999, fullwidth digits and 6 non-finite / extreme doubles), int (|n| <= 2^16 alone, |n| <= 40 beside other arguments), float (integer-valued |x| <= 2^16, 0.5, -2.5), logical, blank, numeric text (2 digits), text (2 letters), date, any of 8 errors, ' \
-             'flat array of 2, nested 2x2; quick: arity 0-1 full pool, arity 2 reduced pool {int, text, blank, error, array}; ' \
+             'flat array of 2, nested 2x2; quick: arity 0-1 full pool, arity 2 reduced pool {int, text, special, blank, error, array}, arity 3-4 (functions whose ' \
+             'signature takes them) all-integer (|n| <= 6) and one odd value in each position beside integers; ' \
              'thorough: arity 0-2 full pool, arity 3-4 reduced pool; termination = iteration budget of the engine, confirmed by ' \
              'replay under a line-event budget'
     outside = ('the cost of single C-level big-number operations (9^999999999, FACT(10^6)): the budget counts Python-level steps',
@@ -271,6 +274,19 @@ class Functions(Harness):
                 out.append(c)
         return out
 
+    def _capacity(self, n):
+        """how many positional arguments the registered function takes (read from the real function object)"""
+        import sys
+        import inspect
+        try:
+            f = sys.modules['hotxlfp.formulas'].dispatcher._registry_[n]
+            ps = inspect.signature(f).parameters.values()
+        except Exception:
+            return 4
+        if any(q.kind is q.VAR_POSITIONAL for q in ps):
+            return 4
+        return len([q for q in ps if q.kind in (q.POSITIONAL_ONLY, q.POSITIONAL_OR_KEYWORD)])
+
     def _cases_for(self, n, tier):
         return [c for c in self._cases_for0(n, tier) if not (n in SMALL_INT_FUNCS and 'special' in c['tags'])]
 
@@ -287,6 +303,15 @@ class Functions(Harness):
             for a in first:
                 for b in second:
                     out.append({'fn': n, 'tags': [a, b]})
+            if tier != 'thorough':
+                # arity 3 and 4 in the quick tier: only for functions whose signature takes that many arguments, one odd
+                # value (non-finite, extreme, odd text) in each position beside integers, and all-integer arguments
+                cap = self._capacity(n)
+                for k in (3, 4):
+                    if cap >= k:
+                        out.append({'fn': n, 'tags': ['int'] * k, 'lim': 6})
+                        for pos in range(k):
+                            out.append({'fn': n, 'tags': ['int'] * pos + ['special'] + ['int'] * (k - pos - 1)})
             if tier == 'thorough':
                 for a in REDUCED_POOL:
                     for b in REDUCED_POOL:
@@ -302,7 +327,7 @@ class Functions(Harness):
     def run(self, env, inp, p):
         if env.symbolic:
             e = E.cur()
-            inp['args'] = [pool_value(env, e, t, 'x%d' % i, len(p['tags']), p['fn'], concrete=('special' in p['tags'])) for i, t in enumerate(p['tags'])]
+            inp['args'] = [pool_value(env, e, t, 'x%d' % i, len(p['tags']), p['fn'], concrete=('special' in p['tags']), lim=p.get('lim')) for i, t in enumerate(p['tags'])]
         names = ['v%s' % 'abcd'[i] for i in range(len(p['tags']))]
         return self.parse_with(env, '%s(%s)' % (p['fn'], ','.join(names)), dict(zip(names, inp['args'])))
 
@@ -397,6 +422,12 @@ LONG_TEMPLATES = [
     ('long digit run', '1', 'D', '+1'),
     ('nested parentheses', '((((((((((((((((((((', 'D', '))))))))))))))))))))'),
     ('operator run', '1', 'O', '1'),
+    ('unterminated string of escape pairs', 'LEN("', 'P', ')'),
+    ('unterminated single-quoted string of escape pairs', "'", 'P', ''),
+    ('string of escaped quotes', '"', 'Q', '"'),
+    ('dotted identifier', 'a', 'I', '+1'),
+    ('error-literal-shaped run', '#', 'E', '!1'),
+    ('cell-shaped run', '$', 'C', '$'),
 ]
 
 
@@ -410,8 +441,8 @@ class LongTexts(Harness):
           'literals, long identifiers and digit runs, deep parentheses, operator runs (the run itself is symbolic text)'
     functions = ('grammarparser.lexer.t_STRING', 'grammarparser.lexer.t_FUNCTION', 'grammarparser.lexer.t_VARIABLE', 'ply.lex.Lexer.token',
                  're (backtracking of the master regex, mirrored by the symbolic matcher)')
-    bounds = '%d templates with a symbolic run of 32 (quick) / 48 (thorough) characters from the template\'s class (letters and ' \
-             'spaces, digits, or operator characters); termination = decision / iteration budget of the symbolic matcher, ' \
+    bounds = '%d templates with a symbolic run of 32 (quick) / 48 (thorough) characters (escape pairs: 64 / 96) from the template\'s class (letters and ' \
+             'spaces, digits, operator characters, backslash-letter and backslash-quote pairs, dotted identifiers, error- and cell-shaped runs; operator and dotted runs periodic with a symbolic period of 3 / 4 characters); termination = decision / iteration budget of the symbolic matcher, ' \
              'confirmed by replay under a wall-clock limit (the real regex engine runs in C)' % len(LONG_TEMPLATES)
     max_decisions = 3000
     max_ticks = 5000
@@ -423,8 +454,23 @@ class LongTexts(Harness):
 
     def build(self, e, p):
         kind = LONG_TEMPLATES[p['t']][2]
-        alpha = {'X': [(65, 90), (97, 122), (32, 32)], 'L': [(65, 90), (97, 122)], 'D': [(48, 57)], 'O': [(42, 43), (45, 45), (47, 47)]}[kind]
-        return {'run': e.fresh_str('r', p['n'], alphabet=alpha)}
+        alpha = {'X': [(65, 90), (97, 122), (32, 32)], 'L': [(65, 90), (97, 122)], 'D': [(48, 57)], 'O': [(42, 43), (45, 45), (47, 47)],
+                 'P': [(65, 90), (97, 122), (92, 92)], 'Q': [(34, 34), (92, 92)], 'I': [(65, 90), (97, 122), (46, 46), (95, 95)],
+                 'E': [(65, 90), (48, 57), (95, 95)], 'C': [(65, 90), (97, 122)]}[kind]
+        # escape pairs: twice as long, so that 2^(pairs) derivations are far beyond any time limit if the pattern is ambiguous
+        run = e.fresh_str('r', p['n'] * (2 if kind in 'PQ' else 1), alphabet=alpha)
+        if kind in 'PQ':
+            # escape pairs: a backslash at every even position (and for P a letter, for Q the quote after it)
+            for k, c in enumerate(run.cps):
+                e.add(c == 92 if k % 2 == 0 else c != 92)
+        if kind in 'OI':
+            # every character of these classes lexes differently, so a free run has 3^n .. 4^n path classes: the run is
+            # periodic instead (period 3 / 4, the period itself symbolic)
+            per = 3 if kind == 'O' else 4
+            for k, c in enumerate(run.cps):
+                if k >= per:
+                    e.add(c == run.cps[k % per])
+        return {'run': run}
 
     def run(self, env, inp, p):
         _, pre, _, post_ = LONG_TEMPLATES[p['t']]
@@ -432,3 +478,77 @@ class LongTexts(Harness):
 
     def post(self, env, inp, out, p):
         return well_formed(env, out)
+
+
+def lexer_patterns(env):
+    """the regular expressions ply compiled for the real lexer (regenerated from the current source on every run)"""
+    P = env.Parser()
+    lx = P.parser.lex
+    pats = []
+    for state, lst in sorted(lx.lexstateretext.items()):
+        pats.extend(lst)
+    return P, pats
+
+
+@register
+class RegexAmbiguity(Harness):
+    name = 'C01.regexes'
+    prop = 'C01'
+    termination = True
+    doc = 'no unbounded repetition in the lexer\'s regular expressions can match one and the same text in two different ways: ' \
+          'an ambiguous repetition makes the backtracking engine try 2^k derivations on k copies of that text followed by a ' \
+          'character that makes the token fail, so parse would not return in bounded time'
+    functions = ('grammarparser.lexer (every t_* pattern as compiled by ply into the master expressions)', 're._parser (parse trees of those patterns)',
+                 'Parser.parse (replay of the pumped input)')
+    bounds = 'every repetition without an upper bound and with a compound body in the lexer\'s master expressions; texts w of ' \
+             '1..4 (quick) / 1..6 (thorough) arbitrary code points, a prefix of 0..2 arbitrary code points that leads up to the ' \
+             'repetition; decided: the number of derivations of w in body* is at most one.  A witness is confirmed by timing ' \
+             'the real parse on prefix + w * k + a failing character'
+    outside = ('ambiguities that need a text longer than the bound', 'polynomial (non-exponential) backtracking of adjacent repetitions',
+               'the inline patterns of TEXT / TRIM / ARABIC, which are applied to values, not to the formula')
+    max_decisions = 4000
+    replay_timeout_s = 30
+    case_timeout_s = {'quick': 250, 'thorough': 2500}
+
+    def cases(self, tier):
+        ns = (1, 2, 3, 4) if tier == 'quick' else (1, 2, 3, 4, 5, 6)
+        return [{'n': n, 'm': m} for n in ns for m in (0, 1, 2)]
+
+    def build(self, e, p):
+        return {'w': e.fresh_str('w', p['n']), 'x': e.fresh_str('x', p['m']) if p['m'] else '', 'node': None}
+
+    def run(self, env, inp, p):
+        from .. import symre
+        import re._parser as sre_parse
+        P, pats = lexer_patterns(env)
+        reps = []
+        for pat in pats:
+            tree = sre_parse.parse(pat, 64)       # ply compiles with re.VERBOSE
+            reps += [r for r in symre.unbounded_repeats(tree) if not symre.single_char(r[1])]
+        if not reps:
+            return {'ways': 0, 'slow': False, 'reps': 0}
+        if env.symbolic:
+            inp['node'] = E.cur().choose(len(reps))
+        before, body = reps[inp['node'] % len(reps)]
+        if not symre.full_match_nodes(before, inp['x']):
+            return {'ways': 0, 'slow': False, 'reps': len(reps)}
+        ways = symre.derivations(body, inp['w'])
+        slow = ways >= 2
+        if slow and not env.symbolic:
+            # confirmation on the real code: 2^k derivations to refuse
+            slow = False
+            for k in (10, 14, 18, 22, 26, 30):
+                for suffix in ('', '\x01', '\n'):
+                    t0 = time.time()
+                    P.parse(inp['x'] + inp['w'] * k + suffix)
+                    if time.time() - t0 > 3.0:
+                        slow = True
+                        break
+                if slow:
+                    break
+        return {'ways': ways, 'slow': slow, 'reps': len(reps)}
+
+    def post(self, env, inp, out, p):
+        if isinstance(out, Raised):
+            return False
+        return not out['slow']
